@@ -17,6 +17,14 @@
 // the window it stands for (2 after OnCallBegin returned, 3 before OnCallEnd is called,
 // 0/1 inside the callback), so the ticket order is a sound linearisation.
 // ops = [[seed]]; obs = [[event codes in ticket order]] (not reproducible run to run).
+//
+// cfg [3, nB, connecters]  gated scenario on real time: the recording ClientConn's ExitIdleMode
+// blocks on a gate (as clientconn.go's exitIdleMode takes time to rebuild resolver and
+// balancer) and records event 1 only when it returns, i.e. when the channel HAS left idle
+// mode.  RPC A calls OnCallBegin and blocks inside the callback; then nB more RPCs call
+// OnCallBegin (and `connecters` goroutines call ExitIdleMode) while A is still inside it; 3ms
+// later the gate opens.  An OnCallBegin that returns before the gate opens is logged (event 2)
+// before event 1: the acceptor rejects it (clause 2).  obs = [[event codes in ticket order]].
 package idle
 
 import (
@@ -32,10 +40,71 @@ import (
 
 var vIdleT *testing.T
 
-type vIdleCC struct{ f func(int64) }
+type vIdleCC struct {
+	f       func(int64)
+	gate    chan struct{} // when non-nil: ExitIdleMode blocks until it is closed
+	entered chan struct{}
+}
 
 func (c *vIdleCC) EnterIdleMode() { c.f(0) }
-func (c *vIdleCC) ExitIdleMode()  { c.f(1) }
+func (c *vIdleCC) ExitIdleMode() {
+	if c.gate != nil {
+		select {
+		case c.entered <- struct{}{}:
+		default:
+		}
+		<-c.gate
+	}
+	c.f(1) // recorded when the channel has left idle mode
+}
+
+func vIdleExecGated(cfg []int64, ops [][]int64) (obs [][]int64, nontrivial bool, tags []string) {
+	nB, nC := 2, 0
+	if len(cfg) > 1 && cfg[1] > 0 && cfg[1] <= 16 {
+		nB = int(cfg[1])
+	}
+	if len(cfg) > 2 && cfg[2] > 0 && cfg[2] <= 4 {
+		nC = int(cfg[2])
+	}
+	var mu sync.Mutex
+	var log []int64
+	put := func(e int64) { mu.Lock(); log = append(log, e); mu.Unlock() }
+	cc := &vIdleCC{f: put, gate: make(chan struct{}), entered: make(chan struct{}, 1)}
+	m := idle.NewManager(cc, 10*time.Minute)
+	var wg sync.WaitGroup
+	rpc := func() {
+		defer wg.Done()
+		m.OnCallBegin()
+		put(2)
+	}
+	wg.Add(1)
+	go rpc() // A
+	select {
+	case <-cc.entered:
+	case <-time.After(10 * time.Second):
+	}
+	for i := 0; i < nB; i++ {
+		wg.Add(1)
+		go rpc()
+	}
+	for i := 0; i < nC; i++ {
+		wg.Add(1)
+		go func() { defer wg.Done(); m.ExitIdleMode() }()
+	}
+	time.Sleep(3 * time.Millisecond)
+	close(cc.gate)
+	wg.Wait()
+	for i := 0; i < nB+1; i++ {
+		put(3)
+		m.OnCallEnd()
+	}
+	put(4)
+	m.Close()
+	mu.Lock()
+	w := append([]int64(nil), log...)
+	mu.Unlock()
+	return [][]int64{w}, true, []string{"gated"}
+}
 
 func vIdleExecSeq(cfg []int64, ops [][]int64) (obs [][]int64, nontrivial bool, tags []string) {
 	tmo := int64(0)
@@ -222,6 +291,9 @@ func vIdleExec(cfg []int64, ops [][]int64) ([][]int64, bool, []string) {
 	if len(cfg) > 0 && cfg[0] == 1 {
 		return vIdleExecStress(cfg, ops)
 	}
+	if len(cfg) > 0 && cfg[0] == 3 {
+		return vIdleExecGated(cfg, ops)
+	}
 	return vIdleExecSeq(cfg, ops)
 }
 
@@ -249,6 +321,10 @@ func vIdleGen(r *vRand, tier string, idx int) (cfg []int64, ops [][]int64) {
 		return vIdleScript(idx)
 	}
 	idx -= 4
+	if idx < 3 { // an RPC (or Connect) arriving while another caller is inside cc.ExitIdleMode
+		return []int64{3, int64(1 + 2*idx), int64(idx % 2)}, [][]int64{{int64(idx)}}
+	}
+	idx -= 3
 	if idx < nStress {
 		G := int64(2 + r.Intn(5))
 		iters := int64(2400) / G
@@ -299,5 +375,5 @@ func vIdleGen(r *vRand, tier string, idx int) (cfg []int64, ops [][]int64) {
 
 func TestVerif_Idle(t *testing.T) {
 	vIdleT = t
-	vRunDriver(t, "Idle", 64, 1800, vIdleGen, vIdleExec)
+	vRunDriver(t, "Idle", 67, 1803, vIdleGen, vIdleExec)
 }
